@@ -84,6 +84,86 @@ fn year_obligations(leaf: &mut Leaf, tag: &str, sk: &Skeleton, lines: &[Line], y
     leaf.ob(&format!("{tag}.year-{yr}"), &vx::and(&atoms));
 }
 
+/// a decimal as a TOML value: integers bare (as in the embedded table), anything else quoted
+fn toml_amount(d: Decimal) -> String {
+    let t = d.to_string();
+    if t.contains('.') { format!("\"{t}\"") } else { t }
+}
+
+/// The exemption table as the CLI and the MCP server load it: `Config::load_with_overrides()` run in a scratch working
+/// directory and HOME holding override files (opts `cwd_ov` / `home_ov`: the years each file lists) whose amounts are
+/// symbolic. Expected table: a listed year has the file's amount, every other embedded year keeps the embedded one.
+fn config_from_override_files(sk: &Skeleton, leaf: &mut Leaf, years: &[i32]) -> Option<(Config, BTreeMap<i32, Decimal>)> {
+    let root = std::env::temp_dir().join(format!("symx-c04-{}-{}", std::process::id(), sk.id));
+    let cwd = root.join("cwd");
+    let home = root.join("home");
+    let home_cfg = home.join(".config").join("cgt-tool");
+    std::fs::create_dir_all(&cwd).expect("scratch cwd");
+    std::fs::create_dir_all(&home_cfg).expect("scratch home");
+    let mut over: BTreeMap<i32, Decimal> = BTreeMap::new();
+    for (key, dir) in [("cwd_ov", &cwd), ("home_ov", &home_cfg)] {
+        if let Some(ys) = sk.raw["opts"].get(key).and_then(|v| v.as_array()) {
+            let mut text = String::from("# override\n[exemptions]\n");
+            for y in ys {
+                let y = y.as_i64().expect("override year") as i32;
+                let e = vx::fresh(&format!("ov{y}"));
+                vx::assume(&vx::ge(e, Decimal::ZERO));
+                text.push_str(&format!("\"{y}\" = {}\n", toml_amount(e)));
+                assert!(over.insert(y, e).is_none(), "families list a year in one override file only");
+            }
+            std::fs::write(dir.join("config.toml"), text).expect("override file");
+        }
+    }
+    let back = std::env::current_dir().expect("cwd");
+    #[allow(unused_unsafe)]
+    unsafe {
+        std::env::set_var("HOME", &home)
+    };
+    std::env::set_current_dir(&cwd).expect("chdir");
+    let loaded = Config::load_with_overrides();
+    std::env::set_current_dir(&back).expect("chdir back");
+    let _ = std::fs::remove_dir_all(&root);
+    let embedded = Config::embedded().expect("embedded table");
+    let cfg = match loaded {
+        Ok(c) => c,
+        Err(e) => {
+            leaf.outcome = "err".into();
+            leaf.msg = e.to_string();
+            leaf.ob_bool("C04.override-files-load", false, "load_with_overrides failed on well-formed override files");
+            return None;
+        }
+    };
+    let mut atoms = Vec::new();
+    for (y, e) in &over {
+        match cfg.get_exemption(*y as u16) {
+            Ok(v) => atoms.push(vx::eq_l(&format!("override amount for {y}"), v, *e)),
+            Err(_) => atoms.push(vx::lit(false, &format!("year {y} of an override file is not configured"))),
+        }
+    }
+    leaf.ob("C04.override-file-amounts-used", &vx::and(&atoms));
+    let mut kept = Vec::new();
+    for (y, v) in &embedded.exemptions {
+        if !over.contains_key(&(*y as i32)) {
+            match cfg.get_exemption(*y) {
+                Ok(w) => kept.push(vx::eq_l(&format!("embedded amount for {y}"), w, *v)),
+                Err(_) => kept.push(vx::lit(false, &format!("embedded year {y} lost"))),
+            }
+        }
+    }
+    let want_years = embedded.exemptions.len() + over.keys().filter(|y| !embedded.exemptions.contains_key(&(**y as u16))).count();
+    kept.push(vx::lit(cfg.exemptions.len() == want_years, "configured years are the embedded ones plus those added by override files"));
+    leaf.ob("C04.embedded-years-kept", &vx::and(&kept));
+    let mut ex = BTreeMap::new();
+    for &y in years {
+        if let Some(e) = over.get(&y) {
+            ex.insert(y, *e);
+        } else if let Some(v) = embedded.exemptions.get(&(y as u16)) {
+            ex.insert(y, *v);
+        }
+    }
+    Some((cfg, ex))
+}
+
 fn disposal_years(lines: &[Line]) -> Vec<i32> {
     let mut v: Vec<i32> = lines.iter().filter(|l| l.kind == Kind::Sell).map(|l| tax_year_of(l.date)).collect();
     v.sort();
@@ -120,7 +200,14 @@ pub fn c04(sk: &Skeleton) -> Leaf {
         }
         return leaf;
     }
-    let (cfg, ex) = symbolic_config(&years, None);
+    let (cfg, ex) = if variant == "override" {
+        match config_from_override_files(sk, &mut leaf, &years) {
+            Some(x) => x,
+            None => return leaf,
+        }
+    } else {
+        symbolic_config(&years, None)
+    };
     let filter = sk.opt_i64("year").map(|y| y as i32);
     let res = cgt_core::calculator::calculate(&txs, filter, None, &cfg);
     leaf.sig = signature(&res, sk);
@@ -128,6 +215,12 @@ pub fn c04(sk: &Skeleton) -> Leaf {
         Err(e) => {
             leaf.outcome = "err".into();
             leaf.msg = e.to_string();
+            if variant == "override" {
+                if let CgtError::UnsupportedExemptionYear(y) = e {
+                    let y = *y as i32;
+                    leaf.ob_bool("C04.unconfigured-year-is-an-error", !ex.contains_key(&y) && dys.contains(&y), "refused for a year that is configured (embedded table or override file) or has no disposal");
+                }
+            }
         }
         Ok(rep) => {
             leaf.outcome = "ok".into();
